@@ -69,9 +69,12 @@ CLAIMED = {
     "C05": dict(text="CLEAR._is_same_match / _is_id_switched are verified against their truth tables, _calculate_score against the MOTA/MOTP formulas, and "
                      "_calculate_tp_fp (nested search loop with breaks) for all pairs of result lists: TP, FP and ID-switch accumulators equal ghost prefix counts of "
                      "the statement's per-result predicates (first previous TP sharing a track decides), so every considered result is exactly one of TP/FP; "
-                     "count lemmas by induction on every run. Ids occur only under ==, hence renaming invariance.",
-                note="Correctness at a threshold, matching scores and thresholds are named functions (C03/C06/C10). Not under contract: CLEAR.__init__ (sum over "
-                     "frames), tp_matching_score accumulation, _sum_clear and the scenario clauses (perfect tracker, new id, exchange) - native harness (bounded).", ref="5/C05"),
+                     "count lemmas by induction on every run. CLEAR.__init__ is verified for all histories: each total (TP, FP, switches, matching score, result count) "
+                     "is the running sum over consecutive frame pairs (frame t against frame t-1 only) of _calculate_tp_fp's value for that pair, and MOTA/MOTP are "
+                     "the stated functions of the totals. Ids occur only under ==, hence renaming invariance.",
+                note="Correctness at a threshold, matching scores and thresholds are named functions (C03/C06/C10); in __init__ the per-frame values are named functions "
+                     "of (frame, previous frame, configuration). Not under contract: which score enters tp_matching_score per TP, _sum_clear and the scenario clauses "
+                     "(perfect tracker, new id, exchange) - native harness (bounded).", ref="5/C05"),
     "C11": dict(text="ClassificationAccuracy is verified: the counting loop (TP + FP = number of pairs, TP = number of label-correct pairs) and the four formulas "
                      "with their range in [0,1] and the all-correct case. The identity-based pairing functions are checked on the real code exhaustively up to a "
                      "stated bound (bounded stand-in, not counted as proved).",
@@ -98,6 +101,14 @@ CLAIMED = {
                      "(AP non-decreasing in the cumulative TP weights for the rank-indexed definition).",
                 note="The identification of Ap's computed area with the rank-indexed sum is bounded (exhaustive rankings up to length 5/6 on the real Ap, replay/C08.py), "
                      "as is the scene-level check; induction itself is the meta-level step.", ref="5/C08"),
+    "C19": dict(text="The per-object status tallies are verified for all lists of frame results: GroundTruthStatus.__init__ (five new, separate, empty lists), add_status "
+                     "(the frame number goes to `total` and to exactly the list of its status), get_object_status (nested loops over the four pass/fail lists with "
+                     "loop invariants over ghost counts: for an arbitrary uuid u, an entry exists iff some TP / FP-labelled matched FP / TN / FN item carries u, it is unique, "
+                     "and each of its lists has one entry per such item), StatusRate.rate and get_scene_rates (ratios in [0,1], a distribution), MatchingStatus predicates.",
+                note="With C03 (each critical ground truth is in exactly one of those lists of its frame) this is 'each ground truth once per frame'. The DataFrame-level "
+                     "clauses (rows per item in the ego frame, counts, errors, rates, confusion matrix) are pandas/numpy code outside the verifier: bounded native harness "
+                     "only (random scenes, 1/3/9 areas, ego and map frame, detection and FP validation), never counted as proved. One open known finding "
+                     "(num_ground_truth counts the ground truth of a failing pair twice) is reported as KNOWN-FINDING; two defects were repaired (fix: commits).", ref="5/C19"),
 }
 NA_REASON = "check not built yet in this session (planned in DESIGN.md section 5); not claimed"
 ALL = [f"C{n:02d}" for n in range(1, 21)]
@@ -127,7 +138,6 @@ NA = {
  "C07": "decided only as leaf agreements inside C03 (both filters get the frame's transforms), C09 (both frame branches of the APH weight), C10 (ego-relative position through the registry) and C18; the whole-pipeline frame-read audit was not built, so the property is not claimed",
  "C12": "crop_pointcloud is vectorised numpy with a uint8 winding counter; the lifted per-row executor it needs was not built (DESIGN.md section 7)",
  "C16": "the loader is glue around nuscenes-devkit and file I/O; pose semantics and table reading are the devkit's, no contract within reach",
- "C19": "DataFrame-level clauses (MultiIndex xs, concat, bincount) have no contract within reach; get_object_status was not put under contract in this session",
 }
 if __name__ == "__main__":
     main()
